@@ -129,6 +129,26 @@ def evaluate(case, native):
         return None, 'no native result'
     if 'panic' in native:
         return True, 'the real code panicked: ' + native['panic'][-300:]
+    if kind == 'reducer':
+        import struct
+
+        def key(bits):
+            b = int(bits)
+            if b >= 1 << 63:
+                b -= 1 << 64
+            return b ^ 0x7fffffffffffffff if b < 0 else b
+
+        def vec_key(v):
+            return [key(x) for x in v] + [0] * (8 - len(v))
+        cands = case.get('leaves') or [case['left'], case['right']]
+        best = min(vec_key(c) for c in cands)
+        w = native.get('winner')
+        if w is None:
+            return True, 'successes were reduced to a failure'
+        if vec_key(w) != best:
+            f = lambda v: [struct.unpack('<d', struct.pack('<Q', int(x)))[0] for x in v]
+            return True, f'reducer returned cost {f(w)} although the minimum of the candidates {[f(c) for c in cands]} is smaller'
+        return False, 'reducer returned the minimal cost vector'
     if kind == 'max_generation':
         g, lim = case['generation'], case['limit']
         e = native['estimate']
